@@ -79,6 +79,7 @@ class ClassInfo:
         self.lineno = lineno
         self.fname = fname
         self.problems = []
+        self.pins_fn = None    # AST of a `pins` property defined in this class
 
 
 def collect(repo):
@@ -114,6 +115,8 @@ def collect(repo):
                                 ci.problems.append('%s.%s: %s' % (node.name, nm, e))
                     elif isinstance(st, ast.FunctionDef):
                         ci.props.add(st.name)
+                        if st.name == 'pins':
+                            ci.pins_fn = st
                     elif (isinstance(st, ast.Expr) and isinstance(st.value, ast.Call)
                           and isinstance(st.value.func, ast.Attribute) and st.value.func.attr == 'update'
                           and isinstance(st.value.func.value, ast.Name) and st.value.func.value.id == 'auxiliary'
@@ -187,6 +190,105 @@ def pin_rows(items):
     return '[' + ', '.join(rows) + ']'
 
 
+VARIANT_ATTRS = ['normal_pins', 'mirror_pins', 'invert_pins', 'mirror_invert_pins',
+                 'normal_pins2', 'mirror_pins2', 'invert_pins2', 'mirror_invert_pins2']
+
+# the `pins` properties the model knows (lean/Lcapy/Model/Layout.lean: pinsOf); anything else is reported as unparsed
+PINS_TEMPLATES = {
+    'mirror': "return self.mirror_pins if self.mirror else self.normal_pins",
+    'invert': "return self.invert_pins if self.invert else self.normal_pins",
+    'mirrorinputs-xor-mirror': "return self.mirror_pins if (self.mirrorinputs ^ self.mirror) else self.normal_pins",
+    'mirrorinputs': "return self.mirror_pins if self.mirrorinputs else self.normal_pins",
+}
+
+TRANSISTOR_TEMPLATE = """
+if (self.kind is not None
+    and (self.kind.startswith(_A_)
+         or self.kind.startswith(_B_))):
+    xpins = [[self.normal_pins2, self.invert_pins2],
+             [self.mirror_pins2, self.mirror_invert_pins2]]
+else:
+    xpins = [[self.normal_pins, self.invert_pins],
+             [self.mirror_pins, self.mirror_invert_pins]]
+if (self.classname in _C_
+    or self.kind in _D_):
+    pins = xpins[not self.mirror][self.invert]
+else:
+    pins = xpins[self.mirror][self.invert]
+
+if self.size != 1 or self.scale != 1:
+    if 'g' in pins:
+        pins = pins.copy()
+        gpin = pins['g']
+        y = ((1 - self.scale) / 2 +
+             gpin[2] * self.scale + (self.size - 1) / 2) / self.size
+        pins['g'] = (gpin[0], gpin[1], y)
+return pins
+"""
+
+
+class _Abstract(ast.NodeTransformer):
+    """replace the literal class / kind lists and prefixes of Transistor.pins by placeholders, collecting them"""
+
+    def __init__(self):
+        self.found = []
+
+    def visit_Compare(self, node):
+        if len(node.ops) == 1 and isinstance(node.ops[0], ast.In) and isinstance(node.comparators[0], ast.Tuple) \
+                and all(isinstance(e, ast.Constant) and isinstance(e.value, str) for e in node.comparators[0].elts):
+            self.found.append([e.value for e in node.comparators[0].elts])
+            node.comparators = [ast.Name(id='_LIST_', ctx=ast.Load())]
+        return self.generic_visit(node)
+
+    def visit_Call(self, node):
+        if isinstance(node.func, ast.Attribute) and node.func.attr == 'startswith' and len(node.args) == 1 \
+                and isinstance(node.args[0], ast.Constant) and isinstance(node.args[0].value, str):
+            self.found.append(node.args[0].value)
+            node.args = [ast.Name(id='_PREFIX_', ctx=ast.Load())]
+        return self.generic_visit(node)
+
+    def visit_Name(self, node):
+        if node.id in ('_A_', '_B_'):
+            return ast.Name(id='_PREFIX_', ctx=ast.Load())
+        if node.id in ('_C_', '_D_'):
+            return ast.Name(id='_LIST_', ctx=ast.Load())
+        return node
+
+
+def _body_dump(stmts, abstract=False):
+    stmts = [st for st in stmts if not (isinstance(st, ast.Expr) and isinstance(st.value, ast.Constant))]
+    found = None
+    if abstract:
+        ab = _Abstract()
+        stmts = [ab.visit(st) for st in stmts]
+        found = ab.found
+    return '\n'.join(ast.dump(st) for st in stmts), found
+
+
+def pins_rule(classes, cname):
+    """(rule name, transistor parameters or None) of the `pins` property that applies to class `cname`"""
+    import copy
+    c = classes.get(cname)
+    seen = 0
+    while c is not None and seen < 50:
+        if 'pins' in c.attrs:
+            return 'literal', None
+        if c.pins_fn is not None:
+            fn = copy.deepcopy(c.pins_fn)
+            dump, _ = _body_dump(fn.body)
+            for name, src in PINS_TEMPLATES.items():
+                if dump == _body_dump(ast.parse(src).body)[0]:
+                    return name, None
+            dump, found = _body_dump(copy.deepcopy(c.pins_fn).body, abstract=True)
+            tdump, _ = _body_dump(ast.parse(TRANSISTOR_TEMPLATE).body, abstract=True)
+            if dump == tdump and len(found) == 4 and isinstance(found[0], str) and isinstance(found[1], str):
+                return 'transistor', {'prefixes': [found[0], found[1]], 'pclasses': found[2], 'pkinds': found[3]}
+            raise Unparsed('%s.pins: property body not understood (defined in %s)' % (cname, c.name))
+        c = classes.get(c.base) if c.base else None
+        seen += 1
+    return 'literal', None
+
+
 NORMALISE = "angle = (angle + 180) % 360 - 180"
 
 
@@ -235,6 +337,7 @@ def generate(repo):
     rot_rows, rot_norm = rotation_table(repo, unparsed)
     rows = []
     emitted = []
+    transistor = {}
     for cname in order:
         ci = classes[cname]
         # only component classes (those deriving from Cpt)
@@ -245,21 +348,28 @@ def generate(repo):
             c = classes.get(c.base) if c.base else None
         if 'Cpt' not in chain:
             continue
-        if 'Transistor' in chain:
-            if cname == 'Transistor':
-                unparsed.append('Transistor family: `pins` is a property depending on kind/size/scale (not modelled)')
-            continue
         try:
             vals = {}
             for a in ATTRS:
                 vals[a] = resolve(classes, cname, a)
             pins, pins_prop = vals['pins']
             literal = True
+            rule, tpar = pins_rule(classes, cname)
+            if tpar is not None:
+                if transistor.setdefault('par', tpar) != tpar:
+                    raise Unparsed('two different Transistor.pins parameter sets')
+            variants = []
             if pins_prop:
                 literal = False
                 pins, p2 = vals['normal_pins']
                 if pins is None:
+                    if cname in ('Transistor',):
+                        continue          # abstract base: no pin table of its own
                     raise Unparsed('pins is a property and there is no normal_pins')
+                for va in VARIANT_ATTRS:
+                    vp, _ = resolve(classes, cname, va)
+                    if vp is not None:
+                        variants.append((va, vp))
             if pins is None:
                 pins = []
             aux, _ = vals['auxiliary']
@@ -290,16 +400,20 @@ def generate(repo):
                 return bool(v)
             allpins = dict_update(pins, aux)    # allpins = pins.copy(); allpins.update(auxiliary)
             dp, _ = vals['default_pins']
+            vtext = ', '.join('(%s, %s, [%s])' % (lean_str(va), pin_rows(dict_update(vp, aux)), ', '.join(lean_str(k) for k, _ in vp))
+                              for va, vp in variants)
             row = ('{\n    nodePinnames := [%s],\n    pins := %s,\n    pinOrder := [%s], aux := [%s], requiredAux := [%s],\n'
                    '    aliases := [%s],\n    canStretch := %s, canScale := %s, doTranspose := %s, place := %s, directive := %s,\n'
-                   '    defaultWidth := %s, defaultAspect := %s, shapeScale := %s, w := %s, pinsLiteral := %s, hasDefaultPins := %s }') % (
+                   '    defaultWidth := %s, defaultAspect := %s, shapeScale := %s, w := %s, pinsLiteral := %s, hasDefaultPins := %s,\n'
+                   '    pinsRule := %s, variants := [%s] }') % (
                 ', '.join(lean_str(s) for s in (npn or ())),
                 pin_rows(allpins), ', '.join(lean_str(k) for k, _ in pins), ', '.join(lean_str(k) for k, _ in aux),
                 ', '.join(lean_str(s) for s in (ra or ())),
                 ', '.join('(%s, %s)' % (lean_str(k), lean_str(v)) for k, v in (al or [])),
                 lean_bool(flag('can_stretch')), lean_bool(flag('can_scale')), lean_bool(flag('do_transpose')),
                 lean_bool(flag('place')), lean_bool(flag('directive')),
-                lean_rat(dw), lean_rat(da), lean_rat(ss), lean_rat(w), lean_bool(literal), lean_bool(bool(dp)))
+                lean_rat(dw), lean_rat(da), lean_rat(ss), lean_rat(w), lean_bool(literal), lean_bool(bool(dp)),
+                lean_str(rule), vtext)
             rows.append((cname, row))
             emitted.append(cname)
         except Unparsed as e:
@@ -323,8 +437,16 @@ def generate(repo):
             '/-- Cpt.R: `Rdict` as (angle, a, b, c, d) for the matrix ((a, b), (c, d)) -/\n'
             'def rotTable : List (Int × Int × Int × Int × Int) := [%s]\n\n'
             '/-- Cpt.R normalises the angle with `%s` before the lookup -/\n'
-            'def rotNormalise : Bool := %s\n\nend Lcapy.Layout.Gen\n'
-            % (', '.join('(%d, %d, %d, %d, %d)' % r for r in rot_rows), NORMALISE, lean_bool(rot_norm)))
+            'def rotNormalise : Bool := %s\n\n'
+            '/-- Transistor.pins: kinds with these prefixes use the `*_pins2` tables -/\n'
+            'def transistorPins2Prefixes : List String := [%s]\n'
+            '/-- Transistor.pins: class names / kinds of the P-type devices (drawn with `mirror` reversed) -/\n'
+            'def transistorPClasses : List String := [%s]\n'
+            'def transistorPKinds : List String := [%s]\n\nend Lcapy.Layout.Gen\n'
+            % (', '.join('(%d, %d, %d, %d, %d)' % r for r in rot_rows), NORMALISE, lean_bool(rot_norm),
+               ', '.join(lean_str(x) for x in transistor.get('par', {}).get('prefixes', [])),
+               ', '.join(lean_str(x) for x in transistor.get('par', {}).get('pclasses', [])),
+               ', '.join(lean_str(x) for x in transistor.get('par', {}).get('pkinds', []))))
     return text, {'classes': emitted, 'unparsed': unparsed, 'rot_keys': [r[0] for r in rot_rows], 'rot_normalise': rot_norm}
 
 
